@@ -526,11 +526,16 @@ func VerifIOSACL(cmdInfo string) {
 	// position relative to another common line or its log attribute: the
 	// script deletes and re-adds it (a "move"), which takes the line away from
 	// its old place before the later deletes run.
+	// (lines are compared the way the tool does: by their parsed form, so
+	// that 'eq 80' and 'eq www' are the same line)
+	canon := func(l string) string {
+		return verifStripLog.ReplaceAllString(vf.SelectString(vf.LookupString(mn.orig, l), mn.parsed), "")
+	}
 	matchB := make([]int, len(aLines))
 	for i, a := range aLines {
 		matchB[i] = -1
 		for j, b := range bLines {
-			if verifStripLog.ReplaceAllString(a, "") == verifStripLog.ReplaceAllString(b, "") {
+			if canon(a) == canon(b) {
 				matchB[i] = j
 			}
 		}
